@@ -188,6 +188,17 @@ impl RoutingThread {
                 self.process_peer_services(services, peer_index).await;
             }
             Message::GhostChain(chain) => {
+                {
+                    let configs = self.config_lock.read().await;
+                    if !configs.is_browser() && !configs.is_spv_mode() {
+                        // only lite nodes ask for (and follow) ghost chains
+                        warn!(
+                            "ignoring ghost chain from peer : {:?} since this is not a lite node",
+                            peer_index
+                        );
+                        return;
+                    }
+                }
                 self.process_ghost_chain(chain, peer_index).await;
             }
             Message::GhostChainRequest(block_id, block_hash, fork_id) => {
